@@ -1,5 +1,5 @@
 (* C20 - Text helpers: XML escaping round-trips; durations format to the nearest second.  Statements only. *)
-From Plotink Require Import Base.Prelude Base.Rnd Spec.Xml Model.EbbCalc Model.Text Proofs.TextProofs.
+From Plotink Require Import Base.Prelude Base.Rnd Spec.Xml Model.EbbCalc Model.Text Proofs.TextProofs Proofs.RenderProofs.
 Open Scope Z_scope.
 
 (* the five sequential .replace calls are a per-character map *)
@@ -45,6 +45,27 @@ Example C20_example : format_hms (7201 # 2) false = [49; 58; 48; 48; 58; 48; 48]
   xml_escape [38; 97; 109; 112; 59; 60] = [38; 97; 109; 112; 59; 97; 109; 112; 59; 38; 108; 116; 59].
 Proof. split; vm_compute; reflexivity. Qed.
 
+(* the characters printed encode the structured result faithfully: a reader that takes the text up to the first blank, splits it at
+   '.' or ':' and reads the decimal fields (and requires the unit text after the blank) recovers exactly the fields that were printed -
+   for every field combination the printer can be handed (seconds and minutes below 100, any hour count, any millisecond count) *)
+Theorem C20_render_reads_back : forall x, hms_printable x -> read_hms (render x) = Some x.
+Proof. exact render_reads_back. Qed.
+(* so for every duration of at least 10 s the text decodes to fields whose value is the duration rounded to the nearest second *)
+Corollary C20_hms_text_long : forall d, (10 <= d)%Q -> Qround_he d < 10 ^ 400 ->
+  exists x, read_hms (format_hms d false) = Some x /\ hms_value x = Qround_he d /\ hms_wf x.
+Proof.
+  intros d Hd Hb. pose proof (hms_long d Hd) as H. cbv zeta in H. destruct H as (V & W & M).
+  exists (format_hms_struct d false). split; [|split; assumption].
+  unfold format_hms. apply render_reads_back.
+  destruct (format_hms_struct d false) as [n|s|m s|h m s]; cbn [hms_printable hms_wf hms_value] in *.
+  - contradiction.
+  - lia.
+  - split; [apply small_pow; lia|lia].
+  - split; [|lia]. remember (10 ^ 400) as big. lia.
+Qed.
+Example C20_render_example : read_hms (format_hms (7201 # 2) false) = Some (HourMinSec 1 0 0) /\ read_hms (format_hms (1234 # 1000) false) = Some (Millis 1234).
+Proof. split; vm_compute; reflexivity. Qed.
+
 Print Assumptions C20_escape_is_charmap.
 Print Assumptions C20_no_specials.
 Print Assumptions C20_roundtrip_content.
@@ -53,3 +74,5 @@ Print Assumptions C20_cr_tab_refuted.
 Print Assumptions C20_hms_long.
 Print Assumptions C20_hms_short.
 Print Assumptions C20_hms_millis.
+Print Assumptions C20_render_reads_back.
+Print Assumptions C20_hms_text_long.
